@@ -27,6 +27,7 @@ CONSTANTS Families,    \* set of <<r, n>>: all sets of 1..n integer coordinates 
           MaxPath,     \* number of public calls per behaviour
           MaxLenUp,    \* up_sample / neighborhood are explored on sets of at most that many triangles
           MaxLenObs,   \* containing_indices is explored on sets of at most that many triangles
+          MaxLenSel,   \* for_indexes is explored on sets of at most that many triangles
           SelAllMax    \* all non-empty index subsets are explored on sets of at most that many triangles
 
 -----------------------------------------------------------------------------
@@ -43,7 +44,14 @@ Area2(t) == Absv(Cross(t[1], t[2], t[3]))
 TotalArea2(T) == SumSeq([k \in DOMAIN T |-> Area2(T[k])])
 VSet(t) == {t[1], t[2], t[3]}
 Geo(T) == [k \in DOMAIN T |-> VSet(T[k])]
-SameBag(S, T) == ToBag(Geo(S)) = ToBag(Geo(T))      \* the same triangles, with multiplicity, in any order
+\* the same triangles, with multiplicity, in any order (without repeated triangles this is equality of sets and lengths)
+SameBag(S, T) ==
+    LET gs == Geo(S)
+        gt == Geo(T)
+        ss == ToSet(gs)
+    IN /\ Len(S) = Len(T)
+       /\ ss = ToSet(gt)
+       /\ (Cardinality(ss) = Len(S) \/ ToBag(gs) = ToBag(gt))
 SameSet(S, T) == ToSet(Geo(S)) = ToSet(Geo(T))
 
 \* point in the closed / open triangle (orientation tests)
@@ -58,9 +66,14 @@ InOpen(p, t) ==
 TriInside(g, t) == \A v \in VSet(g) : InClosed(v, t)
 
 \* two non-degenerate triangles have disjoint interiors iff the line through an edge of one of them separates them
-Separates(a, b, o, g) == \A v \in VSet(g) : Sgn(Cross(a, b, v)) * Sgn(Cross(a, b, o)) <= 0
+Separates(a, b, o, g) == LET so == Sgn(Cross(a, b, o)) IN \A v \in VSet(g) : Sgn(Cross(a, b, v)) * so <= 0
 EdgeSep(t, g) == \/ Separates(t[1], t[2], t[3], g) \/ Separates(t[2], t[3], t[1], g) \/ Separates(t[3], t[1], t[2], g)
-InteriorsDisjoint(g, h) == Area2(g) > 0 /\ Area2(h) > 0 /\ (EdgeSep(g, h) \/ EdgeSep(h, g))
+\* (bounding boxes that do not overlap are a special case -- an axis-parallel separating line -- tested first
+\* because it is cheap and decides most pairs)
+Lo(t, d) == LET a == t[1][d] b == t[2][d] c == t[3][d] IN IF a <= b THEN (IF a <= c THEN a ELSE c) ELSE (IF b <= c THEN b ELSE c)
+Hi(t, d) == LET a == t[1][d] b == t[2][d] c == t[3][d] IN IF a >= b THEN (IF a >= c THEN a ELSE c) ELSE (IF b >= c THEN b ELSE c)
+BoxSep(g, h) == \/ Hi(g, 1) <= Lo(h, 1) \/ Hi(h, 1) <= Lo(g, 1) \/ Hi(g, 2) <= Lo(h, 2) \/ Hi(h, 2) <= Lo(g, 2)
+InteriorsDisjoint(g, h) == Area2(g) > 0 /\ Area2(h) > 0 /\ (BoxSep(g, h) \/ EdgeSep(g, h) \/ EdgeSep(h, g))
 PairwiseDisjoint(T) == \A i, j \in DOMAIN T : i < j => InteriorsDisjoint(T[i], T[j])
 
 \* ---- up-sampling ----------------------------------------------------------
@@ -197,7 +210,10 @@ Init == /\ \E S \in InitSets : coords = SetToSortSeq(S, LexLt)
         /\ init = [c |-> coords, fl |-> flipped]
 
 Count(a) == Cardinality({k \in DOMAIN path : path[k].a = a})
-Live == last # "obs" /\ Len(path) < MaxPath
+\* a behaviour ends with the containment queries, or one call after an index selection (a selected subset of an
+\* initial input is itself an initial input; the call after it shows that flip state and offsets were kept)
+Live == /\ last # "obs" /\ Len(path) < MaxPath
+        /\ (Count("sel") = 1 => last = "sel")
 Dump(p) == PrintT(ToJson([k |-> "beh", c |-> init.c, fl |-> init.fl, path |-> p]))
 Step(a, t, q) == [a |-> a, t |-> t, q |-> q]
 
@@ -232,7 +248,7 @@ SelFamily(n) ==
     IF n <= SelAllMax THEN (SUBSET (1 .. n)) \ {{}}
     ELSE { {1}, {n}, {k \in 1 .. n : k % 2 = 0}, (1 .. n) \ {2}, {k \in 1 .. n : k % 3 = 1} }
 Select ==
-    /\ Live /\ Count("sel") = 0
+    /\ Live /\ Count("sel") = 0 /\ Count("nbr") = 0 /\ Len(coords) <= MaxLenSel
     /\ \E S \in SelFamily(Len(coords)) :
           LET idx == SetToSortSeq(S, <)
           IN /\ coords' = [k \in DOMAIN idx |-> coords[idx[k]]]
@@ -266,7 +282,9 @@ W == Fine(level)
 \* the coordinate lattice: equilateral triangles of side 2W (area 2W*2W/2), no two overlapping (distinct coordinates)
 LatticeShape == \A k \in DOMAIN coords : Equilateral(Tris[k]) /\ Area2(Tris[k]) = 4 * W * W
                                          /\ Q(Tris[k][1], Tris[k][2]) = 16 * W * W
-LatticeDisjoint == (\A i, j \in DOMAIN coords : i < j => coords[i] # coords[j]) /\ PairwiseDisjoint(Tris)
+\* (a selection or an observation creates no new triangle: checked where the set is new)
+NewSet == last \in {"init", "up", "nbr"}
+LatticeDisjoint == NewSet => (\A i, j \in DOMAIN coords : i < j => coords[i] # coords[j]) /\ PairwiseDisjoint(Tris)
 \* midpoints stay on the fine lattice down to the last level
 MidpointsRepresentable == level < MaxLevel => \A k \in DOMAIN coords : Halvable(Tris[k])
 
@@ -283,7 +301,7 @@ UpAccepted == last = "up" => UpSampled(prev, Tris)
 
 \* on the lattice the mirror image of a vertex in the opposite edge is the point reflection b + c - a
 MirrorIsPointReflection ==
-    \A k \in DOMAIN coords : \A j \in 1 .. 3 : IsEdgeReflection(Across(Tris[k], j), Tris[k], j)
+    last = "nbr" => \A k \in DOMAIN prev : \A j \in 1 .. 3 : IsEdgeReflection(Across(prev[k], j), prev[k], j)
 \* the parity-dependent neighbour offsets are the edge reflections, and nothing else
 NbrIsReflections == last = "nbr" => Neighbourhood(prev, Tris)
 
